@@ -18,7 +18,9 @@ type ForceCase struct {
 	// ProjDir names the directory holding the spokfile ("" = proj)
 	ProjDir string `json:"proj_dir,omitempty"`
 	// Invoke: how spok is pointed at the project (sandbox.Box.Invoke)
-	Invoke  string   `json:"invoke,omitempty"`
+	Invoke string `json:"invoke,omitempty"`
+	// Outputs: "files" = standard output and error are regular files (sandbox.Box.FileOutputs)
+	Outputs string   `json:"outputs,omitempty"`
 	NTasks  int      `json:"ntasks"`
 	Deps    [][2]int `json:"deps"`     // i depends on j (j > i)
 	FileDep []bool   `json:"file_dep"` // per task
@@ -30,6 +32,10 @@ type ForceCase struct {
 	EditBefore  bool   `json:"edit_before,omitempty"`
 	RevertAfter bool   `json:"revert_after,omitempty"`
 	RO          string `json:"ro,omitempty"`
+	// Stdout of the forced run: "" a pipe that is read, "full" /dev/full (every write fails), "closed" a
+	// pipe nobody reads. What spok cannot print has no bearing on what --force makes it execute
+	// (a closed pipe may kill it: then nothing is demanded of that run).
+	Stdout string `json:"stdout,omitempty"`
 }
 
 var forceNames = []string{"alpha", "bravo", "charlie"}
@@ -38,6 +44,7 @@ func genForce(t *rapid.T) ForceCase {
 	c := genForceBody(t)
 	c.ProjDir = genProjDir(t)
 	c.Invoke = genInvoke(t)
+	c.Outputs = genOutputs(t)
 	return c
 }
 
@@ -59,6 +66,7 @@ func genForceBody(t *rapid.T) ForceCase {
 	if rapid.IntRange(0, 3).Draw(t, "ro") == 0 {
 		c.RO = rapid.SampledFrom([]string{"file", "dir"}).Draw(t, "ro_kind")
 	}
+	c.Stdout = rapid.SampledFrom([]string{"", "", "", "", "full", "full", "closed"}).Draw(t, "stdout")
 	return c
 }
 
@@ -108,6 +116,7 @@ func execForce(s *ev.Shard, b *sandbox.Box, c ForceCase) *rp.Fail {
 	if err := b.ResetFor(c.ProjDir, c.Invoke); err != nil {
 		return &rp.Fail{Sig: "harness", Msg: err.Error()}
 	}
+	b.FileOutputs = c.Outputs == "files"
 	src := c.source()
 	if err := writeProject(b, b.Proj, map[string]string{"spokfile": src, "in.txt": "input"}); err != nil {
 		return &rp.Fail{Sig: "harness", Msg: err.Error()}
@@ -146,6 +155,7 @@ func execForce(s *ev.Shard, b *sandbox.Box, c ForceCase) *rp.Fail {
 		_ = os.Chmod(cacheDir, 0o555)
 	}
 	args := append(append([]string{"--force"}, c.Extra...), sel...)
+	b.FullStdout, b.ClosedStdout = c.Stdout == "full", c.Stdout == "closed"
 	r := b.Run(b.Proj, env, runTimeout, args...)
 	if c.RO != "" {
 		_ = os.Chmod(cacheDir, 0o755)
@@ -188,7 +198,17 @@ func execForce(s *ev.Shard, b *sandbox.Box, c ForceCase) *rp.Fail {
 		}
 		return later()
 	}
-	if r.Exit != 0 {
+	if c.Stdout == "closed" && (r.Signal != "" || r.Exit != 0) {
+		// killed (or stopped) at its first message to a reader that has gone away: nothing to judge in that run
+		if s != nil {
+			s.Class("forced_run_cut_short_by_closed_stdout")
+		}
+		return later()
+	}
+	if c.Stdout != "" {
+		desc += fmt.Sprintf(" [standard output: %s]", map[string]string{"full": "/dev/full", "closed": "a pipe nobody reads"}[c.Stdout])
+	}
+	if r.Exit != 0 && c.Stdout != "full" {
 		return &rp.Fail{Sig: "valid-run-failed", Size: size, Msg: desc + ": failed: " + sandbox.Strip(r.Stderr)}
 	}
 	for i := range c.closure() {
